@@ -260,7 +260,8 @@ fn cmd_check(id: &str, tier: &str) {
                     original_op_count: r.ops.len(),
                     mode: r.mode.clone(),
                 };
-                let path = format!("{REPLAYS}/{}-{}-{}-{}.json", prop, seed, r.cfg.scenario, r.idx);
+                let site_tag: String = site.chars().map(|c| if c.is_ascii_alphanumeric() { c } else { '_' }).take(48).collect();
+                let path = format!("{REPLAYS}/{}-{}-{}-{}-{}-{}.json", prop, seed, r.cfg.scenario, r.idx, clause, site_tag);
                 std::fs::write(&path, serde_json::to_string_pretty(&rf).unwrap()).unwrap();
                 // the minimised file must reproduce the class in a fresh process
                 let st = std::process::Command::new(std::env::current_exe().unwrap()).arg("replay").arg(&path).arg("--quiet").status();
@@ -413,6 +414,8 @@ fn cmd_selftest(n: u64) {
             if !seen.insert(sc.name) {
                 continue;
             }
+            // a grid never needs more runs than its space (the long-history grids are slow)
+            let n = n.min(sc.quick);
             let a = farm(sc.f, seed, sc.salt, n, false, 1, true);
             let b = farm(sc.f, seed, sc.salt, n, false, workers(), true);
             let same = a.per_run_traces == b.per_run_traces && a.combined_trace == b.combined_trace && a.distinct == b.distinct;
